@@ -5,6 +5,8 @@ CONSTANTS
   Frame = 1024
   MaxOps = 4
   MaxAttacks = 1
+  AttackKinds = {"tamper", "drop", "dup", "swap", "replay", "replayfar", "reflect"}
+  FarDist = {256}
   RecordHist = TRUE
   Depth = 4
 INVARIANT Emit
